@@ -1209,3 +1209,68 @@ def rule_ID1(ctx, rep):
     if n < 1:
         raise AnalysisError('ID1: no branch of SecureEllipticCurvePoint.normalize mirrors an identity case of a plain normalize')
     return n
+
+
+# ---------------------------------------------------------------------------------- SR1
+def _sr1_neg_test(t):
+    """`n < 0` / `0 > n` / `n <= -1` -> n"""
+    if isinstance(t, ast.Compare) and len(t.ops) == 1:
+        l, r, op = t.left, t.comparators[0], t.ops[0]
+        if isinstance(l, ast.Name) and isinstance(op, ast.Lt) and isinstance(r, ast.Constant) and r.value == 0:
+            return l.id
+        if isinstance(r, ast.Name) and isinstance(op, ast.Gt) and isinstance(l, ast.Constant) and l.value == 0:
+            return r.id
+        if isinstance(l, ast.Name) and isinstance(op, ast.LtE) and isinstance(r, ast.UnaryOp) and isinstance(r.op, ast.USub) \
+                and isinstance(r.operand, ast.Constant) and r.operand.value == 1:
+            return l.id
+    return None
+
+
+def _sr1_settles(stmts, name):
+    """every path through `stmts` that falls through re-binds `name` (to anything: what it is bound to is judged by the caller) or leaves"""
+    for s in stmts:
+        if isinstance(s, (ast.Return, ast.Raise, ast.Continue, ast.Break)):
+            return True
+        if isinstance(s, ast.Assign) and any(isinstance(x, ast.Name) and x.id == name and isinstance(x.ctx, ast.Store) for t in s.targets for x in ast.walk(t)):
+            return True
+        if isinstance(s, ast.AugAssign) and isinstance(s.target, ast.Name) and s.target.id == name:
+            return True
+        if isinstance(s, ast.If) and s.orelse and _sr1_settles(s.body, name) and _sr1_settles(s.orelse, name):
+            return True
+    return False
+
+
+def rule_SR1(ctx, rep, modules=('gfpx',)):
+    """sign of a bit-scanned exponent: a square-and-multiply loop reads its exponent through `n.bit_length()` and `(n >> i) & 1`, which
+    describe |n| only for n >= 0.  Where the function itself tests `n < 0` (so negative exponents are part of its contract) the branch
+    taken for a negative exponent leaves (raise / return) or re-binds the exponent before the scan; a negative exponent that reaches the
+    scan is read in two's complement and a different power is computed."""
+    model = ctx.model
+    n = 0
+    for k, fn in sorted(model.funcs.items()):
+        if fn.module not in modules:
+            continue
+        scanned = set()
+        for x in iter_nodes(fn.node):
+            if isinstance(x, ast.Call) and isinstance(x.func, ast.Attribute) and x.func.attr == 'bit_length' and isinstance(x.func.value, ast.Name):
+                scanned.add(x.func.value.id)
+        scanned &= set(fn.params)
+        if not scanned:
+            continue
+        shifted = {x.left.id for x in iter_nodes(fn.node) if isinstance(x, ast.BinOp) and isinstance(x.op, ast.RShift) and isinstance(x.left, ast.Name)}
+        scanned &= shifted
+        for br in iter_nodes(fn.node):
+            if not isinstance(br, ast.If):
+                continue
+            nm = _sr1_neg_test(br.test)
+            if nm is None or nm not in scanned:
+                continue
+            n += 1
+            if _sr1_settles(br.body, nm):
+                rep.ok('SR1', fn, br, f'a negative `{nm}` leaves or is re-bound before its bits are scanned')
+            else:
+                rep.bad('SR1', fn, br, f'under `{norm(br.test)}` the exponent `{nm}` reaches the bit scan (`{nm}.bit_length()`, `{nm} >> i`) as it is: '
+                        'the bits of a negative int are those of its two\'s complement, so a different power is computed')
+    if n < 1:
+        raise AnalysisError(f'SR1: no bit-scanned exponent with a negative case found in {modules}')
+    return n
